@@ -71,3 +71,16 @@ Proof.
   split; [|vm_compute; reflexivity].
   intros j c [->| ->] Hc; cbn in Hc; destruct j as [|[|j]]; cbn; lia.
 Qed.
+
+(* ---- the whole loop (added): however many rounds NN-descent runs, in either memory mode, with any
+   thread count, threshold and generator state, every row of the result is rank-wise at least as
+   good as the same row of the heap the loop started from ---- *)
+From PV Require Import C01Proofs C13Loop.
+Theorem C13_nn_descent_never_worse :
+  forall (dm : nat -> nat -> Z) (inf : Z) (n k maxc : nat),
+    (0 < k)%nat -> (0 < maxc)%nat -> (forall a b, dm a b = dm b a) ->
+    forall b iters g rng T thr_c, GWF dm inf n k g ->
+      Good n k g (nnd_low inf dm iters g maxc rng T thr_c) /\
+      Good n k g (nnd_high inf dm b iters g (g_ind g) maxc rng T thr_c).
+Proof. exact nn_descent_rounds_never_worse. Qed.
+Print Assumptions C13_nn_descent_never_worse.
